@@ -341,9 +341,46 @@ def call(fn, method, user, body=b"", uri="/"):
     return ("call", fn, method, user, body, uri)
 
 
-def requests_for(api, name, tag, srv, idx, entry="http"):
-    """-> (list of (port, raw request) | call(...), list of driver ops to run afterwards)"""
+# ---- minimal protobuf writer for an OTLP ExportLogsServiceRequest (the OTLP endpoints accept protobuf only)
+
+def _pb_varint(n):
+    out = bytearray()
+    while True:
+        b = n & 0x7F
+        n >>= 7
+        if n:
+            out.append(b | 0x80)
+        else:
+            out.append(b)
+            return bytes(out)
+
+
+def _pb_len(field, payload):
+    return _pb_varint((field << 3) | 2) + _pb_varint(len(payload)) + payload
+
+
+def _pb_kv(key, val):
+    return _pb_len(1, key) + _pb_len(2, _pb_len(1, val))                 # KeyValue{key=1, value=2: AnyValue{string_value=1}}
+
+
+def otlp_logs(resources):
+    """resources: list of (index name bytes, body bytes) -> ExportLogsServiceRequest with one ResourceLogs per entry, the index
+    name in the resource attribute siglensIndexName"""
+    out = b""
+    for index, body in resources:
+        resource = _pb_len(1, _pb_kv(b"siglensIndexName", index)) + _pb_len(1, _pb_kv(b"service.name", b"c19"))
+        record = _pb_varint((1 << 3) | 1) + (NOW_MS * 1_000_000).to_bytes(8, "little") + _pb_len(5, _pb_len(1, body))
+        scope_logs = _pb_len(1, _pb_len(1, b"c19scope")) + _pb_len(2, record)
+        out += _pb_len(1, _pb_len(1, resource) + _pb_len(2, scope_logs))
+    return out
+
+
+def requests_for(api, name, tag, srv, idx, entry="http", occ="first"):
+    """-> (list of (port, raw request) | call(...), list of driver ops to run afterwards).
+    occ == "repeated": the request carries the name several times (REP action lines / resources / events / actions / datapoints);
+    a second request puts a well-formed name first"""
     I, Q = srv.ip, srv.qp
+    REP = 3 if occ == "repeated" else 1
     seg = url_seg(name, tag)
     bn = body_name(name, tag)          # bytes
     hv = body_name(name, tag)          # what a route parameter carries at the handler entry
@@ -368,8 +405,23 @@ def requests_for(api, name, tag, srv, idx, entry="http"):
                 out.append((Q, req("POST", "/api/search", J(q))))
         return out, []
     if api == "bulk-index":
-        body = J({"index": {"_index": NAME}}) + b"\n" + json.dumps({"timestamp": NOW_MS, "msg": "x%d" % idx}).encode() + b"\n"
-        return [(I, req("POST", "/elastic/_bulk", body))], ["flush", "rotate"]
+        pair = lambda ix, k: jbody({"index": {"_index": ix}}, bn) + b"\n" + json.dumps({"timestamp": NOW_MS, "msg": "x%d-%d" % (idx, k)}).encode() + b"\n"
+        out = [(I, req("POST", "/elastic/_bulk", b"".join(pair(NAME, k) for k in range(REP))))]
+        if REP > 1:
+            out.append((I, req("POST", "/elastic/_bulk", pair("okidx", 0) + b"".join(pair(NAME, k) for k in range(1, REP)) + pair("okidx", 9))))
+        return out, ["flush", "rotate"]
+    if api == "otlp-logs-index":
+        out = [(I, req("POST", "/otlp/v1/logs", otlp_logs([(bn, b"o%d-%d" % (idx, k)) for k in range(REP)]), "application/x-protobuf"))]
+        if REP > 1:
+            out.append((I, req("POST", "/otlp/v1/logs", otlp_logs([(b"okidx", b"ok")] + [(bn, b"p%d-%d" % (idx, k)) for k in range(REP)]),
+                               "application/x-protobuf")))
+        return out, ["flush", "rotate"]
+    if api == "hec-index":
+        ev = lambda ix, k: jbody({"event": {"msg": "h%d-%d" % (idx, k)}, "index": ix, "time": NOW_MS // 1000}, bn)
+        out = [(I, req("POST", "/services/collector/event", b"".join(ev(NAME, k) for k in range(REP))))]
+        if REP > 1:
+            out.append((I, req("POST", "/services/collector/event", ev("okidx", 0) + b"".join(ev(NAME, k) for k in range(1, REP)))))
+        return out, ["flush", "rotate"]
     if api == "put-index":
         b = json.dumps({"mappings": {"properties": {"f": {"type": "keyword"}}}}).encode()
         if H:
@@ -387,11 +439,11 @@ def requests_for(api, name, tag, srv, idx, entry="http"):
                     call("alias-put", "PUT", {"indexName": b"idx0", "aliasName": hv})], []
         return [(Q, req("PUT", b"/elastic/" + seg + b"/_alias/al%d" % idx)), (Q, req("PUT", b"/elastic/idx0/_alias/" + seg))], []
     if api == "aliases-add":
-        return [(Q, req("POST", "/elastic/_aliases", J({"actions": [{"add": {"index": NAME, "alias": "al%d" % idx}}]}))),
-                (Q, req("POST", "/elastic/_aliases", J({"actions": [{"add": {"indices": [NAME], "alias": "bl%d" % idx}}]}))),
-                (Q, req("POST", "/elastic/_aliases", J({"actions": [{"add": {"index": "idx0", "alias": NAME}}]})))], []
+        return [(Q, req("POST", "/elastic/_aliases", J({"actions": [{"add": {"index": NAME, "alias": "al%d-%d" % (idx, k)}} for k in range(REP)]}))),
+                (Q, req("POST", "/elastic/_aliases", J({"actions": [{"add": {"indices": [NAME] * REP, "alias": "bl%d" % idx}}]}))),
+                (Q, req("POST", "/elastic/_aliases", J({"actions": [{"add": {"index": "idx0", "alias": NAME}}] * REP})))], []
     if api == "aliases-remove":
-        return [(Q, req("POST", "/elastic/_aliases", J({"actions": [{"remove": {"index": NAME, "alias": ALIASKEY}}]})))], []
+        return [(Q, req("POST", "/elastic/_aliases", J({"actions": [{"remove": {"index": NAME, "alias": ALIASKEY}}] * REP})))], []
     if api == "alias-get":
         if H:
             return [call("alias-get-index", "GET", {"indexName": hv, "aliasName": b"x"}), call("alias-get", "GET", {"aliasName": hv})], []
@@ -440,13 +492,15 @@ def requests_for(api, name, tag, srv, idx, entry="http"):
         return [(Q, req("POST", "/elastic/_search?scroll=1m", J({"scroll": "1m", "scroll_id": NAME, "query": {"match_all": {}}}))),
                 (Q, req("POST", "/elastic/_search", J({"scroll_id": NAME})))], []
     if api == "metric-name":
-        return [(I, req("POST", "/otsdb/api/put", J([{"metric": NAME, "timestamp": NOW_MS // 1000, "value": 1.5, "tags": {"host": "h"}}])))], []
+        return [(I, req("POST", "/otsdb/api/put", J([{"metric": NAME, "timestamp": NOW_MS // 1000 + k, "value": 1.5, "tags": {"host": "h"}}
+                                                     for k in range(REP)])))], []
     if api == "metric-tagkey":
-        return [(I, req("POST", "/otsdb/api/put", J([{"metric": "m%d" % idx, "timestamp": NOW_MS // 1000, "value": 1.5,
-                                                      "tags": {NAME: "v", "host": "h"}}])))], []
+        return [(I, req("POST", "/otsdb/api/put", J([{"metric": "m%d-%d" % (idx, k), "timestamp": NOW_MS // 1000, "value": 1.5,
+                                                      "tags": {NAME: "v", "host": "h"}} for k in range(REP)])))], []
     raise vlib.Infra("no request builder for api %s" % api)
 
 
+INGEST_APIS = ("bulk-index", "doc-index", "otlp-logs-index", "hec-index")     # every case is followed by flush + rotate
 FIXED_PATH_APIS = ("folder-create", "folder-get", "folder-delete", "usq-save", "usq-delete", "metric-name", "alert-get", "alert-delete",
                    "contact-delete")
 BATCH_APIS = {"metric-name": ["mrotate"], "metric-tagkey": ["mrotate"]}    # effects appear at the (once per life) shutdown flush
@@ -542,7 +596,7 @@ def run_api(binary, api, cases, seed):
                                              "idx": -1, "ups": 1, "entry": "http", "hist": state}, "statuses": [], "leak": None, "effects": eff})
                     restore(root, files, eff)
                     before = snapshot(root)
-            reqs, ops = requests_for(api, c["name"], c["tag"], srv, c["idx"], c.get("entry", "http"))
+            reqs, ops = requests_for(api, c["name"], c["tag"], srv, c["idx"], c.get("entry", "http"), c.get("occ", "first"))
             leak = None
             statuses = []
             for rq in reqs:
@@ -645,6 +699,10 @@ def run(chk):
     if "Confined" not in r3.violated:
         raise vlib.Infra("model sensitivity lost: normalising a name after its guard no longer violates Confined")
     chk.add_tlc("MC_Paths_normafter", r3, "sensitivity: a call site that normalises look-alikes AFTER its guard violates Confined (expected)")
+    r4 = vlib.run_tlc("Paths", "MC_Paths_cachefirst.cfg", timeout=600)
+    if "Confined" not in r4.violated:
+        raise vlib.Infra("model sensitivity lost: a per-request cache filled before the guard no longer violates Confined")
+    chk.add_tlc("MC_Paths_cachefirst", r4, "sensitivity: a call site that caches a name per request BEFORE validating it violates Confined on the repeated occurrence (expected)")
     beh, rg = vlib.tlc_generate("Gen_Paths", "Gen_Paths.cfg", timeout=1500)
     chk.add_tlc("Gen_Paths", rg, "export of every (api, entry, history, name class sequence) with the predicted outcome")
     if not beh:
@@ -662,47 +720,53 @@ def run(chk):
         hists = sorted(set(b["hist"] for b in lst_all), key=["fresh", "created", "deleted"].index)
         base = lst_all[0]["base"]
         pathparam = lst_all[0]["transport"] == "pathparam"
-        by_name = {(b["hist"], tuple(b["name"])): b for b in lst_all}
+        occs = sorted(set(b.get("occ", "first") for b in lst_all))      # ["first"] or ["first", "repeated"]
+        by_name = {(b["hist"], b.get("occ", "first"), tuple(b["name"])): b for b in lst_all}
         cases = []
         idx = 0
 
-        def add(b, tag, ups, target=None, prefix=False, lk=0, hist="fresh"):
+        def add(b, tag, ups, target=None, prefix=False, lk=0, hist="fresh", occ="first"):
             nonlocal idx
             idx += 1
             cases.append({"classes": b["name"], "predicted": b["predicted"], "base": base, "suffix": b["suffix"], "tag": tag, "ups": ups,
-                          "target": target, "prefix": prefix, "lk": lk, "entry": entry, "hist": hist, "idx": idx,
-                          "key": "-".join(b["name"]) + ("" if tag == "raw" else ":" + tag) + ("" if ups == 1 else ":x%d" % ups) +
+                          "target": target, "prefix": prefix, "lk": lk, "entry": entry, "hist": hist, "occ": occ, "idx": idx,
+                          "key": "-".join(b["name"]) + ("" if occ == "first" else ":repeated") + ("" if tag == "raw" else ":" + tag) + ("" if ups == 1 else ":x%d" % ups) +
                                  ("" if not target else ":" + target) + (":pfx" if prefix else "") +
                                  (":" + LOOKALIKES[lk % len(LOOKALIKES)]["id"] if any(c.startswith("lk") for c in b["name"]) else "")})
 
-        def lookup(seq, hist):
-            return by_name.get((hist, tuple(seq))) or {"name": list(seq), "predicted": "?", "suffix": lst_all[0]["suffix"]}
+        def lookup(seq, hist, occ="first"):
+            return by_name.get((hist, occ, tuple(seq))) or {"name": list(seq), "predicted": "?", "suffix": lst_all[0]["suffix"]}
 
         # ---- core: canonical traversal forms, real and look-alike, in every store history
         lkc = rnd.randrange(len(LOOKALIKES))
-        for hist in hists:
+        for hist, occ in [(h, o) for h in hists for o in occs]:
             for seq in CORE_ASCII:
-                b = lookup(seq, hist)
+                b = lookup(seq, hist, occ)
                 for ups in (base + 1, base + 2, base + 3):
                     for tg in (["s", "al", "nw"] if seq[-1] == "plain" else [None]):
-                        add(b, "raw", ups, tg, hist=hist)
+                        add(b, "raw", ups, tg, hist=hist, occ=occ)
                 if seq == ["up", "sep", "plain"]:
-                    add(b, "raw", base + 1, "s", prefix=True, hist=hist)
-                    add(b, "urlenc", base + 1, "s", hist=hist)
+                    add(b, "raw", base + 1, "s", prefix=True, hist=hist, occ=occ)
+                    add(b, "urlenc", base + 1, "s", hist=hist, occ=occ)
             for seq in CORE_LOOKALIKE:
-                b = lookup(seq, hist)
+                b = lookup(seq, hist, occ)
                 for ups in (base + 1, base + 2, base + 3):
                     for tg in (["s", "al", "nw"] if seq[-1] == "plain" else [None]):
                         lkc += 1          # rotate through the look-alike families: every family meets every core form
-                        add(b, "bytes" if (pathparam and entry == "http") else "raw", ups, tg, lk=lkc, hist=hist)
-            if hist == "fresh":
+                        add(b, "bytes" if (pathparam and entry == "http") else "raw", ups, tg, lk=lkc, hist=hist, occ=occ)
+            if hist == "fresh" and occ == "first":
                 # every look-alike family on the canonical form (one depth, existing + new target)
                 b = lookup(CORE_LOOKALIKE[0], hist)
                 for lk in range(len(LOOKALIKES)):
                     for tg in ("s", "nw"):
                         add(b, "raw", base + 1, tg, lk=lk, hist=hist)
+        # repeated occurrence: a sample of the exported names of <= 2 classes as well
+        if "repeated" in occs:
+            rep = [b for b in lst_all if b["hist"] == hists[0] and b.get("occ") == "repeated" and len(b["name"]) <= 2]
+            for b in rnd.sample(rep, min(len(rep), 12 if quick else 80)):
+                add(b, "raw", 1, lk=rnd.randrange(len(LOOKALIKES)), occ="repeated")
         # ---- the TLC export of the first history, sampled in the quick tier
-        lst = [b for b in lst_all if b["hist"] == hists[0]]
+        lst = [b for b in lst_all if b["hist"] == hists[0] and b.get("occ", "first") == "first"]
         esc = [b for b in lst if b["predicted"] == "Escapes"]
         one = [b for b in lst if len(b["name"]) == 1]
         two = [b for b in lst if len(b["name"]) == 2 and b["predicted"] != "Escapes"]
@@ -710,7 +774,7 @@ def run(chk):
         if quick:
             two = rnd.sample(two, min(len(two), 30))
             rest = rnd.sample(rest, min(len(rest), 40))
-        elif api in ("bulk-index", "doc-index"):
+        elif api in INGEST_APIS:
             rest = rnd.sample(rest, min(len(rest), 300))       # each case costs a flush + rotate
         elif api in FIXED_PATH_APIS:
             # the path does not depend on the name; folder_structure.json / usq.json are rewritten on every request (quadratic)
@@ -737,7 +801,7 @@ def run(chk):
             add(b, "raw", 1)
         # one server life handles at most `chunk` cases: every bulk/doc case creates an index, and flush/rotate cost grows with
         # the number of indexes a process has seen; shorter lives also spread the work over the workers
-        chunk = 250 if api in ("bulk-index", "doc-index") else 700
+        chunk = 250 if api in INGEST_APIS else 700
         for i in range(0, len(cases), chunk):
             work.append((api, entry, cases[i:i + chunk]))
         total_cases += len(cases)
@@ -751,9 +815,9 @@ def run(chk):
     hist_ok = {}
     reproduced, not_reproduced = set(), set()
     for (api, entry, cases), results in zip(work, out):
-        apik = api + ("@handler" if entry == "handler" else "")
         for res in results:
             c = res["case"]
+            apik = api + ("@handler" if entry == "handler" else "") + ("+repeated" if c.get("occ") == "repeated" else "")
             if res.get("hist_ok"):
                 for k, v in res["hist_ok"].items():
                     hist_ok.setdefault(api, {})[k] = hist_ok.get(api, {}).get(k, True) and v
@@ -784,12 +848,13 @@ def run(chk):
             for eff in sorted(set(effects)):
                 key = "C19:%s:%s:%s" % (apik, eff, cls)
                 paths = [e[1] for e in res["effects"] if e[0] == eff][:4]
-                what = ("%s%s with name %r (%s encoding; classes %s; store history %s) %s outside the data directory: %s%s; status %s" % (
+                what = ("%s%s with name %r (%s encoding; classes %s; store history %s%s) %s outside the data directory: %s%s; status %s" % (
                     api, " [handler entry: route parameter delivered verbatim]" if entry == "handler" else "",
                     c["name"][:120].decode("utf8", "backslashreplace"), c["tag"], cls, c.get("hist", "fresh"),
+                    "; the name occurs 3 times in one request" if c.get("occ") == "repeated" else "",
                     {"create": "CREATED", "overwrite": "OVERWROTE", "delete": "DELETED", "read": "RETURNED THE CONTENT OF a file"}[eff],
                     paths if eff != "read" else "", (" response contains ...%s..." % res["leak"]) if eff == "read" else "", res["statuses"]))
-                v = vio.setdefault(key, {"what": what, "rep": {"api": api, "entry": entry, "hist": c.get("hist", "fresh"), "classes": c["classes"],
+                v = vio.setdefault(key, {"what": what, "rep": {"api": api, "entry": entry, "hist": c.get("hist", "fresh"), "occ": c.get("occ", "first"), "classes": c["classes"],
                                                                "name_latin1": c["name"].decode("latin1"), "lk": c.get("lk", 0),
                                                                "tag": c["tag"], "ups": c["ups"], "target": c.get("target"), "prefix": c.get("prefix", False), "effects": res["effects"][:10],
                                                                "leak": res["leak"], "statuses": res["statuses"], "predicted": c["predicted"]}, "n": 0})
@@ -834,7 +899,7 @@ def replay(chk, path):
     binary = vlib.build_driver()
     case = {"classes": rp["classes"], "predicted": rp.get("predicted", "?"), "base": 0, "suffix": False, "tag": rp["tag"], "ups": rp["ups"],
             "target": rp.get("target"), "prefix": rp.get("prefix", False), "lk": rp.get("lk", 0), "entry": rp.get("entry", "http"),
-            "hist": rp.get("hist", "fresh"), "idx": 1, "key": "replay"}
+            "hist": rp.get("hist", "fresh"), "occ": rp.get("occ", "first"), "idx": 1, "key": "replay"}
     res = run_api(binary, rp["api"], [case], 1)
     for r in res:
         print(json.dumps({"name": r["case"]["name"].decode("latin1") if isinstance(r["case"].get("name"), bytes) else "", "statuses": r["statuses"],
